@@ -45,6 +45,18 @@ LAST_EVSES = {}  # station id -> EVSE object of the most recently built network 
 LAST_CURRENTS = {}  # constraint name -> the Current object handed to add_constraint for the most recently built network
 
 
+def _narrow(x, t):
+    """x as a scalar of numpy type t if t holds it exactly, else x itself."""
+    if not t:
+        return x
+    try:
+        with np.errstate(all="ignore"):
+            y = getattr(np, t)(x)
+        return y if float(y) == float(x) else x
+    except (OverflowError, ValueError):
+        return x
+
+
 def build_network(nd, cls=None, order=None, cons_order=None, **kw):
     from acnportal.acnsim.network import ChargingNetwork, Current
     cls = cls or ChargingNetwork
@@ -57,7 +69,8 @@ def build_network(nd, cls=None, order=None, cons_order=None, **kw):
     for s in stations:
         evse = build_evse(s["id"], s["evse"])
         LAST_EVSES[s["id"]] = evse
-        net.register_evse(evse, s["voltage"], s["phase"])
+        net.register_evse(evse, _narrow(s["voltage"], (nd.get("num_type") or {}).get("voltage")),
+                          _narrow(s["phase"], (nd.get("num_type") or {}).get("phase")))
     cons = nd["constraints"] if cons_order is None else [nd["constraints"][i] for i in cons_order]
     LAST_CURRENTS.clear()
     ids_reg = [s["id"] for s in stations]
